@@ -209,6 +209,50 @@ func (P *Prog) verifyFunctionCase(fn *ssa.Function, con *Contract, caseParam str
 		}
 		vc.oblige(st, fr, "recover", "direct", goal, "a deferred function of "+res.Name+" calls recover() itself, before anything that may panic ("+why+")", fn.Pos())
 	}
+	if gl, ok := con.Options["globals"]; ok {
+		// "option globals=a,b" (or globals=none): the body of the function refers to no package-level variable other
+		// than the listed ones. A structural frame obligation (decided on the SSA, no solver, usable on trusted
+		// functions): a function whose result must be a function of its arguments - also when calls overlap in time -
+		// may not go through shared mutable package state. Callees are not followed.
+		allowed := map[string]bool{}
+		for _, g := range strings.Split(gl, ",") {
+			if g = strings.TrimSpace(g); g != "" && g != "none" {
+				allowed[g] = true
+			}
+		}
+		var bad []string
+		seen := map[string]bool{}
+		var walk func(f *ssa.Function)
+		walk = func(f *ssa.Function) {
+			for _, b := range f.Blocks {
+				for _, in := range b.Instrs {
+					for _, op := range in.Operands(nil) {
+						if op == nil || *op == nil {
+							continue
+						}
+						if g, ok := (*op).(*ssa.Global); ok && !seen[g.Name()] {
+							seen[g.Name()] = true
+							if g.Pkg == fn.Pkg && !allowed[g.Name()] && !strings.HasPrefix(g.Name(), "init$") {
+								bad = append(bad, g.Name())
+							} else if g.Pkg != fn.Pkg && !allowed[g.Pkg.Pkg.Name()+"."+g.Name()] {
+								bad = append(bad, g.Pkg.Pkg.Name()+"."+g.Name())
+							}
+						}
+					}
+				}
+			}
+			for _, af := range f.AnonFuncs {
+				walk(af)
+			}
+		}
+		walk(fn)
+		sort.Strings(bad)
+		goal := tTrue
+		if len(bad) > 0 {
+			goal = tFalse
+		}
+		vc.oblige(st, fr, "reentrant", "globals", goal, res.Name+" refers to no package-level variable other than {"+gl+"}"+map[bool]string{true: "", false: " (found: " + strings.Join(bad, ", ") + ")"}[len(bad) == 0], fn.Pos())
+	}
 	if con.opt("trusted") {
 		return res
 	}
